@@ -17,7 +17,8 @@ EInit == /\ idx \in 1..Len(States)
          /\ dirs = {}
          /\ mem = States[idx].mem
          /\ procs = [p \in P |-> IdleProc]
-         /\ ctl = [mode |-> "idle", k |-> 0, used |-> 0, loc |-> 0]
+         /\ ctl = [mode |-> "idle", k |-> 0, used |-> 0, loc |-> 0, cr |-> 0,
+                   ab |-> IF "aborted" \in DOMAIN States[idx] THEN States[idx].aborted ELSE 0]
          /\ nextEx = 0 /\ nextShard = 0 /\ nsess = 0
          /\ wlog = States[idx].wlog
          /\ done = {States[idx].done[i] : i \in 1..Len(States[idx].done)}
